@@ -1,18 +1,18 @@
 #!/bin/bash
-# mkseedwt.sh <prop> <tag> : scratch worktree /tmp/seed-<tag> of /repo HEAD without the contract files, with the property
+# mkseedwt.sh <prop> <tag> [prompt template, default tools/seed_prompt.txt] : scratch worktree /tmp/seed-<tag> of /repo HEAD without the contract files, with the property
 # text and the seeding instructions under .seed/ (what an independent seeding sub-agent gets to see)
-P="$1"; T="$2"; D=/tmp/seed-$T
+P="$1"; T="$2"; TPL="${3:-/verif/tools/seed_prompt.txt}"; D=/tmp/seed-$T
 git -C /repo worktree add --detach "$D" HEAD >/dev/null 2>&1 || { echo "cannot create $D"; exit 2; }
 for f in $(git -C "$D" ls-files | grep '_verif\.go$'); do git -C "$D" update-index --skip-worktree "$f"; rm -f "$D/$f"; done
 mkdir -p "$D/.seed"
-python3 - "$P" "$D" <<'PY'
+python3 - "$P" "$D" "$TPL" <<'PY'
 import json,sys
 p,d=sys.argv[1],sys.argv[2]
 for l in open('/verif/properties.jsonl'):
     o=json.loads(l)
     if o.get('id')==p:
         json.dump(o,open(d+'/.seed/property.json','w'),indent=1)
-open(d+'/.seed/INSTRUCTIONS.md','w').write(open('/verif/tools/seed_prompt.txt').read().replace('__DIR__',d))
+open(d+'/.seed/INSTRUCTIONS.md','w').write(open(sys.argv[3]).read().replace('__DIR__',d))
 PY
 ( cd "$D" && git status --short | grep -v '^ D' | head -3 )
 echo "$D ready"
